@@ -4,11 +4,11 @@ import os, re, json, shutil, sys
 V='/verif'
 ver={}
 for l in open(sys.argv[1]):
-    m=re.match(r'RESULT /tmp/seed_(C\d+)_out/(\d): ctest-with-change=\[(.*)\] demo-with-change=(\d+) demo-without=(\d+)',l)
+    m=re.match(r'RESULT /tmp/seed_(C\d+)_out/(\d+): ctest-with-change=\[(.*)\] demo-with-change=(\d+) demo-without=(\d+)',l)
     if m: ver[(m.group(1),m.group(2))]=(m.group(3),int(m.group(4)),int(m.group(5)))
 chk={}; cur=None
 for l in open(sys.argv[2]):
-    m=re.match(r'== seed (C\d+)/(\d)',l)
+    m=re.match(r'== seed (C\d+)/(\d+)',l)
     if m: cur=(m.group(1),m.group(2)); chk[cur]={'sigs':[],'viol':0,'rc':None}; continue
     if cur is None: continue
     m=re.match(r'\s+signature: (.*) \((\d+) case',l)
